@@ -145,3 +145,99 @@ func c06Extras(c *Ctx) {
 		c.Check(len(calls) == 1, "R-SIBLING", short(n), "produces its certificates through parseCertificate", w.Pos(fn.Pos()), fmt.Sprint(len(calls)))
 	}
 }
+
+// asn1WriterRules: obligations on encoding/asn1's writer that writer and reader must agree on
+// (shared by C04 and C18).
+func (c *Ctx) asn1WriterRules() {
+	w := c.W
+	ap := "z/encoding/asn1"
+	// R-NARROW: a rune is narrowed to a byte (and handed to a byte predicate) only if it is below utf8.RuneSelf
+	n := 0
+	for _, fn := range w.FuncsOfPkg(ap) {
+		if strings.HasSuffix(w.RelFile(fn.Pos()), "_test.go") {
+			continue
+		}
+		for _, b := range fn.Blocks {
+			for _, in := range b.Instrs {
+				cv, ok := in.(*ssa.Convert)
+				if !ok {
+					continue
+				}
+				if typeStr(cv.Type()) != "uint8" && typeStr(cv.Type()) != "byte" {
+					continue
+				}
+				// operand: the rune produced by ranging over a string
+				ex, ok := cv.X.(*ssa.Extract)
+				if !ok {
+					continue
+				}
+				if _, isNext := ex.Tuple.(*ssa.Next); !isNext || ex.Index != 2 {
+					continue
+				}
+				n++
+				c.Sites++
+				r := cv.X
+				c.Cut(CutSpec{Rule: "R-NARROW", Fn: fn, Label: fmt.Sprintf("rune #%d of a ranged string is narrowed to a byte only if it is below utf8.RuneSelf", n), Target: isInstr(in), Cut: func(f Fact) bool {
+					if f.Y == nil || f.X != r {
+						return false
+					}
+					k, isC := intConst(f.Y)
+					return isC && ((f.Op == "lt" && k <= 128) || (f.Op == "le" && k <= 127))
+				}})
+			}
+		}
+	}
+	c.Check(n >= 1, "R-NARROW", "encoding/asn1", "rune-to-byte narrowings enumerated", "-", fmt.Sprint(n))
+	// R-SIBLING: makeField decides the time tag with the same test makeBody uses for the time body
+	if fn := w.Fn(ap + ".makeField"); fn != nil {
+		var starts []EdgeRef
+		for _, b := range fn.Blocks {
+			ifi, ok := b.Instrs[len(b.Instrs)-1].(*ssa.If)
+			if !ok {
+				continue
+			}
+			for si := 0; si < 2; si++ {
+				for _, f := range condFacts(ifi.Cond, si == 0, idRes) {
+					if f.Op == "eq" && f.Y != nil && Expr(f.Y) == "23" && strings.Contains(Expr(f.X), "getUniversalType") {
+						starts = append(starts, EdgeRef{B: b, Succ: si})
+					}
+				}
+			}
+		}
+		// keep the arm that leads to the range test (the same tag value is compared earlier for parameter validation)
+		var rangeCalls []ssa.Instruction
+		rangeCalls = append(rangeCalls, callsIn(fn, ap+".outsideUTCRange")...)
+		var arm []EdgeRef
+		for _, e := range starts {
+			for _, rc := range rangeCalls {
+				if e.B.Succs[e.Succ].Dominates(rc.Block()) {
+					arm = append(arm, e)
+					break
+				}
+			}
+		}
+		// innermost arm only: the candidate whose successor is dominated by all the others
+		if len(arm) > 1 {
+			best := arm[0]
+			for _, e := range arm[1:] {
+				if best.B.Succs[best.Succ].Dominates(e.B.Succs[e.Succ]) {
+					best = e
+				}
+			}
+			arm = []EdgeRef{best}
+		}
+		starts = arm
+		c.Check(len(starts) >= 1, "R-SIBLING", "asn1.makeField", "the UTCTime arm of the tag selection found", w.Pos(fn.Pos()), fmt.Sprint(len(starts)))
+		if len(starts) >= 1 {
+			c.Cut(CutSpec{Rule: "R-SIBLING", Fn: fn, Label: "a time value keeps the UTCTime tag only if outsideUTCRange was evaluated for it (the test makeBody uses for the body), or GeneralizedTime was requested", StartEdges: starts,
+				Target: SuccessReturn(1, nil), MinTargets: -1, Cut: func(f Fact) bool {
+					if cl := callOf(f.X); cl != nil && strings.HasSuffix(calleeName(&cl.Call), ".outsideUTCRange") {
+						return true
+					}
+					return f.Op == "eq" && f.Y != nil && Expr(f.X) == "params.timeType" && Expr(f.Y) == "24"
+				}})
+		}
+	} else {
+		c.Undecided("R-SIBLING", "asn1.makeField", "anchor", "-", "not found")
+	}
+}
